@@ -638,6 +638,26 @@ int main(int argc, char** argv)
 			size_t p0 = rest.find_first_not_of(' ');
 			line = p0 == std::string::npos ? std::string() : rest.substr(p0);
 		}
+		// "ifroom <id> <ch> <op ...>": the application keeps at most 256 unacknowledged reliable bunches per channel (the proviso of
+		// C01): it performs <op> only while channel <ch> of connection <id> holds fewer than UTCP_RELIABLE_BUFFER - 1 records
+		if (line.compare(0, 7, "ifroom ") == 0)
+		{
+			std::istringstream pre(line);
+			std::string kw;
+			int id = -1, chi = -1;
+			pre >> kw >> id >> chi;
+			HConn* c = get_conn(id);
+			struct utcp_channel* uch = (c && chi >= 0 && chi < DEFAULT_MAX_CHANNEL_SIZE) ? c->get_fd()->channels.Channels[chi] : NULL;
+			if (!c || (uch && uch->NumOutRec + 1 >= UTCP_RELIABLE_BUFFER))
+			{
+				emit("ret skip");
+				continue;
+			}
+			std::string rest;
+			std::getline(pre, rest);
+			size_t p0 = rest.find_first_not_of(' ');
+			line = p0 == std::string::npos ? std::string() : rest.substr(p0);
+		}
 		std::istringstream is(line);
 		std::string op;
 		is >> op;
